@@ -58,6 +58,8 @@ def ty_src(t):
         return f"Optional[{ty_src(t[1])}]"
     if k == "pymod":            # attribute access on an imported module: `datetime.datetime`
         return t[1]
+    if k == "F":                # any exported typedpy Field class, by its declaration source (see zoo_kinds)
+        return t[1]
     raise ValueError(k)
 
 
@@ -144,6 +146,8 @@ def render_module(spec):
         k = it["kind"]
         if k == "import":
             out += [f"import {it['module']}", ""]
+        elif k == "from_import":
+            out += [f"from {it['module']} import {', '.join(it['names'])}", ""]
         elif k == "const":
             ann = f": {it['ann']}" if it.get("ann") else ""
             out += [f"{it['name']}{ann} = {it['src']}", ""]
@@ -216,6 +220,7 @@ class ModGen:
         self.tier = tier
         self.py_ok = True       # python builtins / PEP-585 generics are only legal in annotations
         self.mods = []          # modules imported as `import m` (attribute-access types become available)
+        self.zoo_imports = set()
         self.enums = []
         self.structs = {}        # name -> info {fields: {name: finfo}, required: set, custom_init, immutable}
 
@@ -228,6 +233,10 @@ class ModGen:
         refs = [n for n, s in self.structs.items() if not s["hidden"]]
         if refs and r.random() < 0.12:
             return ["Ref", r.choice(refs)]
+        if r.random() < 0.08:
+            kind, modname, src = r.choice([z for z in zoo_kinds() if z[0] not in ZOO_ARGS])
+            self.zoo_imports.add((modname, kind))
+            return ["F", src]
         if self.py_ok and "datetime" in self.mods and r.random() < 0.12:
             # (`decimal.Decimal` annotations are silently not fields: typedpy has no wrapper for them)
             return ["pymod", r.choice(["datetime.datetime", "datetime.date"])]
@@ -495,7 +504,102 @@ class ModGen:
                 items.append({"kind": "func", "name": f"fn{s}",
                               "params": [["p", "int", None], ["q", "str", "'z'"]][: r.randint(0, 2)],
                               "ret": r.choice(["int", "str", f"S{s}"])})
+        for modname in sorted({m for m, _ in self.zoo_imports}):
+            items.insert(0, {"kind": "from_import", "module": modname,
+                             "names": sorted(k for m, k in self.zoo_imports if m == modname)})
         return {"items": items}
+
+
+# ------------------------------------------------------------------ every exported Field class ("zoo")
+
+ZOO_ARGS = {    # declaration source of the kinds that need arguments; helper classes ZKind/ZPlain/ZRef are in the module
+    "AllOf": "AllOf[Integer, Number]", "AnyOf": "AnyOf[Integer, String]", "OneOf": "OneOf[Integer, String]",
+    "NotField": "NotField[Integer]", "ClassReference": "ClassReference(ZRef)", "Enum": "Enum(values=ZKind)",
+    "EnumString": "EnumString(values=ZKind)", "Sized": "Sized(maxlen=5)", "SizedString": "SizedString(maxlen=5)",
+    "SubClass": "SubClass(clazz=ZPlain)", "Tuple": "Tuple[Integer, String]",
+}
+_ZOO = None
+
+
+def zoo_kinds():
+    """[(class name, module to import it from, declaration source)] for every Field subclass exported by the
+    working tree's `typedpy` / `typedpy.fields` / `typedpy.extfields` that can be declared in a class body"""
+    global _ZOO
+    if _ZOO is not None:
+        return _ZOO
+    import typedpy
+    import typedpy.fields
+    import typedpy.extfields
+    from typedpy.structures import Field
+    found = {}
+    for modname, m in (("typedpy", typedpy), ("typedpy.fields", typedpy.fields), ("typedpy.extfields", typedpy.extfields)):
+        for n in sorted(dir(m)):
+            c = getattr(m, n)
+            if inspect.isclass(c) and issubclass(c, Field) and not n.startswith("_") and n not in found:
+                found[n] = modname
+    out = []
+    for n, modname in sorted(found.items()):
+        src = ZOO_ARGS.get(n, n)
+        probe = (f"import enum\nfrom typedpy import *\nfrom {modname} import {n}\n"
+                 "class ZKind(enum.Enum):\n    A = 1\n    B = 2\nclass ZPlain:\n    pass\n"
+                 "class ZRef(Structure):\n    q: Integer\n"
+                 f"class T(Structure):\n    f: {src}\n    g: Integer\n    _required = ['g']\n"
+                 "assert T._fields == ['f', 'g']\n")
+        try:
+            exec(probe, {"__name__": "zoo_probe"})
+            out.append((n, modname, src))
+        except Exception:
+            pass
+    _ZOO = out
+    return out
+
+
+def zoo_module(kind, modname, src, required):
+    """one field kind in one position (required / every non-required form), plus the derived classes"""
+    f = {"name": "f", "ty": ["F", src]}
+    g = {"name": "g", "ty": ["Integer"]}
+    st = lambda name, bases, fields, **kw: dict({"kind": "struct", "name": name, "style": "annot", "bases": bases,
+                                                "fields": fields}, **kw)
+    base = [{"b": "Structure"}]
+    items = [{"kind": "from_import", "module": modname, "names": [kind]},
+             {"kind": "enum", "name": "ZKind", "members": ["A", "B"]},
+             {"kind": "plain", "name": "ZPlain", "params": []},
+             st("ZRef", base, [{"name": "q", "ty": ["Integer"]}])]
+    if required:
+        items += [st("ZA", base, [f, g], required=["f", "g"]),
+                  st("ZB", base, [f]),
+                  st("ZE", [{"b": "Extend", "of": "ZA"}], [{"name": "extra", "ty": ["String"]}]),
+                  st("ZO", [{"b": "Omit", "of": "ZA", "names": ["g"]}], []),
+                  st("ZP", [{"b": "Pick", "of": "ZA", "names": ["f"]}], []),
+                  st("ZS", [{"b": "cls", "name": "ZA"}], [{"name": "h", "ty": ["String"]}])]
+    else:
+        items += [st("ZA", base, [f, g], required=["g"]),
+                  st("ZB", base, [f, g], optional=["f"]),
+                  st("ZC", base, [f], required=[]),
+                  st("ZD", [{"b": "Partial", "of": "ZRef"}], [f], optional=["f"]),
+                  st("ZPart", [{"b": "Partial", "of": "ZB"}], []),
+                  st("ZE", [{"b": "Extend", "of": "ZA"}], [{"name": "extra", "ty": ["String"]}]),
+                  st("ZO", [{"b": "Omit", "of": "ZA", "names": ["g"]}], []),
+                  st("ZP", [{"b": "Pick", "of": "ZB", "names": ["f"]}], []),
+                  st("ZS", [{"b": "cls", "name": "ZA"}], [{"name": "h", "ty": ["String"]}])]
+    return {"items": items}
+
+
+def zoo_cases(rng, tier):
+    cases = []
+    for kind, modname, src in zoo_kinds():
+        for required in (True, False):
+            cases.append({"suite": "stub", "mod": zoo_module(kind, modname, src, required), "apd": True, "dflt": True,
+                          "seeds": [], "zoo": kind, "zoo_pos": "required" if required else "optional"})
+    # one Partial over a required declaration per kind as well (the derived class makes it non-required)
+    for kind, modname, src in zoo_kinds():
+        mod = zoo_module(kind, modname, src, True)
+        mod["items"].append({"kind": "struct", "name": "ZPart", "style": "annot",
+                             "bases": [{"b": "Partial", "of": "ZA"}], "fields": []})
+        cases.append({"suite": "stub", "mod": mod, "apd": rng.random() < 0.5, "dflt": True, "seeds": [],
+                      "zoo": kind, "zoo_pos": "required+partial"})
+        cases[-1]["dflt"] = cases[-1]["apd"]
+    return cases
 
 
 def gen_cases(rng, tier, n_modules):
@@ -957,6 +1061,8 @@ def stub_init_view(sc):
 
 def tags(case, impl, model):
     out = ["apd:" + str(case["apd"])]
+    if case.get("zoo"):
+        out.append(f"zoo:{case['zoo_pos']}")
     if "unbuildable" in impl:
         return out + ["module:unbuildable"]
     if "unsupported" in impl:
